@@ -24,6 +24,19 @@ type member struct {
 	maybe      bool   // possibly a member
 }
 
+// probeCtx lets the harness see the instant Add takes a context in: the pool evaluates ctx.Done() exactly there.
+type probeCtx struct {
+	context.Context
+	hook func()
+}
+
+func (c probeCtx) Done() <-chan struct{} {
+	if c.hook != nil {
+		c.hook()
+	}
+	return c.Context.Done()
+}
+
 type op struct {
 	kind int // 0 cancel member, 1 add, 2 size, 3 pool.Cancel, 4 yield/sleep
 	m    *member
@@ -153,7 +166,22 @@ func body(s *simrt.Sim, tier string) {
 					addRecs = append(addRecs, r)
 					s.Logf("add m%d", o.m.id)
 					o.m.maybe = !doneAtInvoke && !cancelledBefore
-					p.Add(o.m.ctx)
+					var offered context.Context = o.m.ctx
+					sureWhenTakenIn := false
+					if s.Choose(2, "probe") == 0 {
+						// "added while the pool was still live and some member was still live", judged at the very
+						// instant Add asks the offered context for its Done channel (not only at Add's return, by when
+						// the last other member may have ended)
+						offered = probeCtx{Context: o.m.ctx, hook: func() {
+							if p.Err() == nil && cancelInv == 0 && anyLiveSure() {
+								sureWhenTakenIn = true
+							}
+						}}
+					}
+					p.Add(offered)
+					if sureWhenTakenIn {
+						o.m.sure = true
+					}
 					// no yield between Add's return and these observations
 					if p.Err() == nil && cancelInv == 0 {
 						r.accepted = true
